@@ -402,7 +402,7 @@ type parserSpec struct {
 }
 
 func init() {
-	register(&Rule{ID: "K.layout", Props: []string{"C02", "C07", "C15", "C20", "C18"}, Floor: 14,
+	register(&Rule{ID: "K.layout", Props: []string{"C02", "C07", "C15", "C20", "C18", "C08"}, Floor: 14,
 		Doc: "key constructors and the parsers of their keys agree on the layout; scan bounds are strict prefixes of the keys they bound",
 		Run: func(e *Engine, r *RuleRun) {
 			lay := func(k string) []kseg {
